@@ -191,9 +191,15 @@ class ConvSim(WorldBase):
                     # the same path is loaded, rewritten and loaded again within one process
                     evs.append(["load", {"obj": key + "x", "path": path}])
             evs.append(["dump", {"obj": key, "path": path, "count": True}])
-            if g.random() < 0.4:
-                evs.append(["touch", {"obj": key}])
+            touched = g.random() < 0.4
+            if touched:
+                evs.append(["touch", {"obj": key, "mode": g.choice(["insert", "leaf", "leaf"])}])
             evs.append(["load", {"obj": key, "path": path}])
+            if touched and g.random() < 0.7:
+                # ... and the updated object is dumped again (same path or a new one): that file holds the new state
+                path2 = g.choice([path, f"{key}b.yaml"])
+                evs.append(["dump", {"obj": key, "path": path2}])
+                evs.append(["load", {"obj": key, "path": path2}])
         return evs
 
     def _plan_nest(self, g):
@@ -281,6 +287,25 @@ class ConvSim(WorldBase):
             return {"status": "exc"}
         if back != nest:
             self.V("C13", "C13.nest", "nest", f"uncompress({dims}) returned {back}, the original nest is {nest}")
+        else:
+            # the caller owns the nest it was given: it edits it, and asks again - the second answer is the original
+            def scribble(n):
+                for i, x in enumerate(n):
+                    if isinstance(x, list):
+                        scribble(x)
+                    else:
+                        n[i] = 99
+                n.append(98)
+            scribble(back)
+            try:
+                again = root.uncompress(list(dims))
+            except Exception as e:
+                again = f"raised {type(e).__name__}"
+            if again != nest:
+                self.V("C13", "C13.nest", "nest",
+                       f"a second uncompress({dims}), after the caller edited the first result, returned {again}; the "
+                       f"original nest is {nest}")
+            self.probe("nest_uncompressed_twice")
         # (b) the dictionary form
         try:
             f2 = Fiber.dict2fiber(root.fiber2dict())
@@ -466,6 +491,16 @@ class ConvSim(WorldBase):
         depth = len(o.ranks) if kind == "tensor" else None
         f = root
         pt = []
+        if a.get("mode") == "leaf":
+            # an existing leaf value is updated through its box: no fiber gains or loses an element
+            g2 = f
+            while g2.payloads and isinstance(g2.payloads[-1], Fiber):
+                g2 = g2.payloads[-1]
+            if g2.payloads and not isinstance(g2.payloads[-1], Fiber):
+                box = g2.payloads[-1]
+                box <<= (box.value if isinstance(box.value, (int, float)) else 0) + 1000
+                self.probe("object_leaf_updated_after_dump")
+                return {"touched": "leaf"}
         # insert a fresh coordinate at the first level and walk down creating the path
         c = (max(f.coords) + 1) if f.coords else 0
         if kind == "tensor":
